@@ -186,3 +186,12 @@ def run_case(h):
 
 def classify(human, out):
     return None
+
+
+def canary(human, rec):
+    """corrupted plans the decider must reject: a revision dropped, a revision repeated, an error instead of a plan"""
+    plan = rec["out"].get("plan")
+    if not plan:
+        return []
+    return ["POk %s" % cf.nlist(plan[:-1]), "POk %s" % cf.nlist(plan + plan[:1]), "PErr PEAssert"] + \
+        (["POk %s" % cf.nlist(plan[::-1])] if len(plan) >= 4 and False else [])
